@@ -63,6 +63,9 @@ def families(tier):
     q.append({'name': 'B9', 'params': {'hist': 'BMB', 'universe': ['o', 'o/d'], 'kinds': ['is_dir'], 't1s': ['o/d/g', 'o/d/p/x'], 't2s': ['o/d/h', 'o/x'],
                                     'bf_modes': ['ok'], 'cmp': ['METADATA', 'HASH'], 'mut_paths': ['o/d/g', 'o/d/p/x', 'o/d/h', 'o/x'],
                                     'mut_kinds': ['write', 'delete']}, 'weight': 1})
+    # a caching function asks about a path before its own nested build_file creates it
+    q.append({'name': 'A13', 'params': {'hist': 'BMB', 'kinds': ['read_h', 'exists', 'list_dir'], 'targets': ['o/d/g', 'o/f'], 'modes': ['ok'],
+                                     'universe': ['o', 'o/d'], 'mut_paths': ['o/d/g', 'o/d'], 'mut_kinds': ['none', 'write', 'delete', 'rmtree']}, 'weight': 1})
     q.append({'name': 'V1', 'params': {'hist': 'BBB', 'universe': ['o', 'o/d', 'o/d/g']}, 'weight': 1})
     q.append({'name': 'P2', 'params': {'hist': 'BBB', 'universe': ['o', 'o/d', 'o/dx']}, 'weight': 1})
     q.append({'name': 'A8b', 'params': {'hist': 'BMB', 'kinds': ['is_dir', 'list_dir'], 'mut_paths': ['o/d/z', 'o/d/e/z', 'o/d/e']}, 'weight': 1})
